@@ -19,6 +19,32 @@ def c02_post(m, env):
     shutil.rmtree(env["params"].get("share_dir", ""), ignore_errors=True)
 
 REGISTRY = {
+    "C18": {
+        "level": "exploration",
+        "tiers": {
+            "quick": {"workers": 8, "n_pairs": 480,
+                      "perturbations_per_case": 14},
+            "thorough": {"workers": 16, "n_pairs": 12000,
+                         "perturbations_per_case": 40},
+        },
+    },
+    "C17": {
+        "level": "fault_enumeration",
+        "tiers": {
+            "quick": {"workers": 8, "n_seed": 48, "bitflip_complete_max": 400,
+                      "bitflip_sample": 800, "substitutions": 150},
+            "thorough": {"workers": 16, "n_seed": 1600,
+                         "bitflip_complete_max": 1500,
+                         "bitflip_sample": 4000, "substitutions": 600},
+        },
+    },
+    "C09": {
+        "level": "exploration",
+        "tiers": {
+            "quick": {"workers": 8, "n_refs": 1000},
+            "thorough": {"workers": 16, "n_refs": 30000},
+        },
+    },
     "C02": {
         "level": "exploration",
         "pre": c02_pre, "post": c02_post,
